@@ -1,9 +1,146 @@
-(* C04 — floor version (the refinement theorems are added below as they are proved). *)
+(* C04 — the Python stream decoder returns exactly the valid messages in a byte stream.
+   Property theorems only; each is closed by [exact <lemma>] and followed by Print Assumptions.
+
+   SPEC   PyDecoder_judge maxp maxe  : the acceptance test of the property text at one position (sync bytes, zero
+          reserved field, payload size <= configured maximum, CRC) with the library's own sanity limit maxe
+          (MessageHeader._MAX_EXPECTED_SIZE_BYTES) applied where validate_crc applies it; Base.Scan.scan/feed run it
+          left to right.  For maxp <= maxe it is literally Base.FEFormat.judge_fe false true maxp (first theorem).
+   MODEL  PyDecoder_on_data / PyDecoder_run : decoder.py's on_data loop, parametric in the payload parser
+          (parse_payload), max_payload_len_bytes (maxp), the sanity limit (maxe), return_bytes / return_offset (rb, ro).
+   All theorems quantify over every parser, every maxp/maxe, both flags, every stream and every chunking. *)
 From Coq Require Import NArith List Bool.
-From FEC Require Import Generated.FEConsts Base.Scan Base.FEFormat Models.PyDecoderM Proofs.PyDecoderP.
+From FEC Require Import Generated.FEConsts Base.Scan Base.FEFormat Models.PyDecoderM Proofs.PyDecoderP Proofs.PyDecoderThm.
 Import ListNotations.
 
+(* The SPEC with the generated sanity limit is the shared FusionEngine judge whenever the configured maximum does not
+   exceed that limit (the constructor's default is exactly the limit). *)
 Theorem C04_spec_is_base_judge : forall maxp, (maxp <= MAX_EXPECTED_SIZE_BYTES)%N ->
   forall l, PyDecoder_judge maxp MAX_EXPECTED_SIZE_BYTES l = judge_fe false true maxp l.
 Proof. exact (fun maxp => judge_py_eq_fe maxp MAX_EXPECTED_SIZE_BYTES). Qed.
 Print Assumptions C04_spec_is_base_judge.
+
+(* For any maximum: a position is accepted iff the shared judge with limit min(maxp, maxe) accepts it. *)
+Theorem C04_spec_accepts_min : forall maxp maxe l n,
+  PyDecoder_judge maxp maxe l = Accept n <-> judge_fe false true (N.min maxp maxe) l = Accept n.
+Proof. exact judge_py_accept_iff. Qed.
+Print Assumptions C04_spec_accepts_min.
+
+(* REFINEMENT.  In any state the decoder can be in between calls (PyDecoder_Post: a cached header is the parsed,
+   plausible header at the head of the buffer; the buffer is undecided; a header is cached iff 24 bytes are buffered),
+   one on_data call returns exactly the frames of one feed step of the reference scanner and ends in its state.  The
+   judge here (PyDecoder_judge_dec) additionally demands that the payload parser succeeds: that is what the code does. *)
+Theorem C04_decoder_refines_feed :
+  forall (P : Type) (parse : N -> list N -> option P) maxp maxe rb ro st chunk,
+  PyDecoder_Post parse maxp maxe st ->
+  exists rs st' fs,
+    PyDecoder_on_data parse maxp maxe rb ro false st chunk = PdDone rs st' /\
+    PyDecoder_Post parse maxp maxe st' /\
+    feed (PyDecoder_judge_dec parse maxp maxe) (PyDecoder_abs st) chunk = (fs, PyDecoder_abs st') /\
+    map Some rs = map (PyDecoder_result_of parse rb ro) fs.
+Proof. exact (@decoder_refines_feed). Qed.
+Print Assumptions C04_decoder_refines_feed.
+
+(* ... hence over any chunk list the concatenated results are the frames of ONE scan of the whole stream. *)
+Theorem C04_run_is_scan :
+  forall (P : Type) (parse : N -> list N -> option P) maxp maxe rb ro chunks,
+  exists rss st' fs,
+    PyDecoder_run parse maxp maxe rb ro false PyDecoder_init chunks = PdRunDone rss st' /\
+    PyDecoder_Post parse maxp maxe st' /\
+    scan (PyDecoder_judge_dec parse maxp maxe) 0 (concat chunks) = (fs, PyDecoder_abs st') /\
+    map Some (concat rss) = map (PyDecoder_result_of parse rb ro) fs.
+Proof. exact (@run_is_scan). Qed.
+Print Assumptions C04_run_is_scan.
+
+(* EXACTNESS, full strength: for every payload parser the results are the frames of the scan with the property's
+   own judge: in order, once each, true offsets, exact raw bytes, nothing else. *)
+Definition C04_exact_full : Prop :=
+  forall (P : Type) (parse : N -> list N -> option P) (maxp maxe : N) (rb ro : bool) (chunks : list (list N)),
+  exists rss st',
+    PyDecoder_run parse maxp maxe rb ro false PyDecoder_init chunks = PdRunDone rss st' /\
+    map Some (concat rss) =
+    map (PyDecoder_result_of parse rb ro) (fst (scan (PyDecoder_judge maxp maxe) 0 (concat chunks))).
+
+(* It is false of the code: a CRC-valid message of a registered type whose payload does not unpack (witness: a Pose
+   header with a 3-byte payload, 27 bytes) is accepted by the scan and dropped by the decoder (decoder.py, the except
+   branch around contents.unpack).  Replayed on the implementation by the check: known finding (DESIGN 21 #14). *)
+Theorem C04_exact_refuted : ~ C04_exact_full.
+Proof. exact exact_full_refuted. Qed.
+Print Assumptions C04_exact_refuted.
+
+(* What is missing from the full statement is exactly the proviso "the payload parser does not fail on a CRC-valid
+   message" (parser_total).  With it: the decoder never fails, and the concatenated results over ANY chunking are the
+   frames fs of the left-to-right scan of the concatenated stream; frames_ok says each frame is the stream content at
+   its offset, was accepted there by the judge, and frames are in increasing order without overlap. *)
+Theorem C04_exact_partial :
+  forall (P : Type) (parse : N -> list N -> option P) maxp maxe rb ro,
+  parser_total parse maxp maxe -> forall chunks,
+  exists rss st' fs,
+    PyDecoder_run parse maxp maxe rb ro false PyDecoder_init chunks = PdRunDone rss st' /\
+    scan (PyDecoder_judge maxp maxe) 0 (concat chunks) = (fs, PyDecoder_abs st') /\
+    map Some (concat rss) = map (PyDecoder_result_of parse rb ro) fs /\
+    frames_ok (PyDecoder_judge maxp maxe) 0 (concat chunks) 0 fs.
+Proof. exact (@exact_partial). Qed.
+Print Assumptions C04_exact_partial.
+
+(* The same against the shared judge of Base/FEFormat.v, for configured maxima up to the generated sanity limit. *)
+Theorem C04_exact_partial_base :
+  forall (P : Type) (parse : N -> list N -> option P) maxp rb ro,
+  (maxp <= MAX_EXPECTED_SIZE_BYTES)%N -> parser_total parse maxp MAX_EXPECTED_SIZE_BYTES -> forall chunks,
+  exists rss st' fs,
+    PyDecoder_run parse maxp MAX_EXPECTED_SIZE_BYTES rb ro false PyDecoder_init chunks = PdRunDone rss st' /\
+    scan (judge_fe false true maxp) 0 (concat chunks) = (fs, PyDecoder_abs st') /\
+    map Some (concat rss) = map (PyDecoder_result_of parse rb ro) fs /\
+    frames_ok (judge_fe false true maxp) 0 (concat chunks) 0 fs.
+Proof. exact (fun P parse maxp rb ro => @exact_partial_fe P parse maxp MAX_EXPECTED_SIZE_BYTES rb ro). Qed.
+Print Assumptions C04_exact_partial_base.
+
+(* NEVER RAISES: the model's only failing outcomes are an index/attribute error (PdRaised) and fuel exhaustion
+   (PdOutOfFuel); neither occurs, from the initial state over any chunk list, and in any between-calls state. *)
+Theorem C04_never_raises :
+  forall (P : Type) (parse : N -> list N -> option P) maxp maxe rb ro chunks,
+  exists rss st', PyDecoder_run parse maxp maxe rb ro false PyDecoder_init chunks = PdRunDone rss st'.
+Proof. exact (@never_raises). Qed.
+Print Assumptions C04_never_raises.
+
+Theorem C04_on_data_never_raises :
+  forall (P : Type) (parse : N -> list N -> option P) maxp maxe rb ro st c,
+  PyDecoder_Post parse maxp maxe st ->
+  exists rs st', PyDecoder_on_data parse maxp maxe rb ro false st c = PdDone rs st' /\ PyDecoder_Post parse maxp maxe st'.
+Proof. exact (@on_data_never_raises). Qed.
+Print Assumptions C04_on_data_never_raises.
+
+(* CONSERVATION: consumed + buffered = given, after every sequence of calls. *)
+Theorem C04_conservation :
+  forall (P : Type) (parse : N -> list N -> option P) maxp maxe rb ro chunks rss st',
+  PyDecoder_run parse maxp maxe rb ro false PyDecoder_init chunks = PdRunDone rss st' ->
+  (pd_processed st' + N.of_nat (length (pd_buf st')) = N.of_nat (length (concat chunks)))%N.
+Proof. exact (@conservation). Qed.
+Print Assumptions C04_conservation.
+
+(* BUFFER BOUND: after every sequence of calls fewer than 24 + max_payload bytes are buffered; more precisely either
+   fewer than 24 bytes (no header cached), or the buffer starts with a plausible header (sync, reserved = 0,
+   size <= maximum: hdr_facts) and holds fewer bytes than that header's message. *)
+Theorem C04_buffer_bound :
+  forall (P : Type) (parse : N -> list N -> option P) maxp maxe rb ro chunks rss st',
+  PyDecoder_run parse maxp maxe rb ro false PyDecoder_init chunks = PdRunDone rss st' ->
+  (N.of_nat (length (pd_buf st')) < N.of_nat HEADER_SIZE + maxp)%N /\
+  match pd_hdr st' with
+  | None => (length (pd_buf st') < HEADER_SIZE)%nat
+  | Some h => hdr_facts maxp (pd_buf st') (pd_msg_len st') h /\
+              (N.of_nat (length (pd_buf st')) < N.of_nat HEADER_SIZE + h_psize h)%N
+  end.
+Proof. exact (@buffer_bound). Qed.
+Print Assumptions C04_buffer_bound.
+
+(* Non-vacuity: the initial state satisfies the between-calls invariant; the proviso of C04_exact_partial is met by a
+   non-trivial parser; the SPEC accepts the 27-byte witness that the decoder drops; on real message bytes the decoder
+   returns both messages with offsets 0 and 36 under three chunkings. *)
+Example C04_nonvacuous :
+  (forall (parse : N -> list N -> option (list N)) maxp maxe, PyDecoder_Post parse maxp maxe PyDecoder_init) /\
+  (forall maxp maxe, parser_total (fun (_ : N) (p : list N) => Some p) maxp maxe) /\
+  PyDecoder_judge M24 M24 bad_pose = Accept 27 /\
+  (exists st, PyDecoder_run demo_parser M24 M24 true true false PyDecoder_init [bad_pose] = PdRunDone [[]] st).
+Proof.
+  split; [exact (fun parse maxp maxe => Post_init parse maxp maxe)|].
+  split; [exact parser_total_identity|]. split; [exact bad_pose_accepted_by_spec|exact bad_pose_dropped_by_decoder].
+Qed.
